@@ -213,3 +213,22 @@ Print Assumptions C01_to_pep440_svt.
 Theorem C01_invalid_tag_rejected : forall (today : Z) (old : list N) (fl : flags) (d : option (option Z)) (sv : option (list N)), validate_release_tag (f_tag fl) = false -> test_cmd_v2 today old P fl d sv = ExitErr.
 Proof. exact invalid_tag_rejected. Qed.
 Print Assumptions C01_invalid_tag_rejected.
+
+(* the premises of the tagged end-to-end theorem are satisfiable, and the theorem (not an evaluation) gives the result:
+   `bumpver test 1.2.3b0 MAJOR.MINOR.PATCH[PYTAGNUM] --tag rc` announces 1.2.3rc0, and `--tag alpha` is refused *)
+Example C01_svt_instance :
+  let fl_rc := mkflags false false false (Some (ltext (Some Prc))) false false false in
+  let fl_a := mkflags false false false (Some (ltext (Some Pa))) false false false in
+  svt 1 2 3 (Some (Pb, 0%N)) = StrLit.lit "1.2.3b0" /\
+  test_cmd_v2 738000%Z (svt 1 2 3 (Some (Pb, 0%N))) P fl_rc None None = Exit0 (StrLit.lit "1.2.3rc0") (StrLit.lit "1.2.3rc0") /\
+  test_cmd_v2 738000%Z (svt 1 2 3 (Some (Pb, 0%N))) P fl_a None None = ExitErr.
+Proof.
+  cbv zeta. split; [vm_compute; reflexivity|]. split.
+  - pose proof (svt_cmd_tag 738000%Z (mkflags false false false (Some (ltext (Some Prc))) false false false) (Some Prc) 1 2 3 (Some (Pb, 0%N)) None
+                  eq_refl eq_refl eq_refl I) as [H _].
+    cbv zeta in H. change (option_map Some (@None Z)) with (@None (option Z)) in H. rewrite H. vm_compute. reflexivity.
+  - pose proof (svt_cmd_tag 738000%Z (mkflags false false false (Some (ltext (Some Pa))) false false false) (Some Pa) 1 2 3 (Some (Pb, 0%N)) None
+                  eq_refl eq_refl eq_refl I) as [H _].
+    cbv zeta in H. change (option_map Some (@None Z)) with (@None (option Z)) in H. rewrite H. vm_compute. reflexivity.
+Qed.
+Print Assumptions C01_svt_instance.
